@@ -11,6 +11,7 @@ import anyio
 CHILD_OK = "import sys\nfor l in sys.stdin: pass\n"
 CHILD_IGN = "import signal,sys,time\nsignal.signal(signal.SIGTERM, signal.SIG_IGN)\nsys.stdout.write('{}\\n'); sys.stdout.flush()\nwhile True: time.sleep(1)\n"
 CHILD_EARLY = "import sys\nsys.exit(0)\n"
+CHILD_NOREAD = "import sys,time\nsys.stdout.write('{}\\n'); sys.stdout.flush()\nwhile True: time.sleep(1)\n"  # alive, never reads its stdin
 
 
 def state(pid):
@@ -24,33 +25,56 @@ def state(pid):
         return None
 
 
-async def run(child, mode, M, P):
+CURRENT = {"case": None, "pid": None, "details": [], "violations": []}
+
+
+def _watchdog(signum, frame):
+    """a shutdown that never returns cannot be interrupted from inside (that is the failure): report and leave"""
+    CURRENT["violations"].append({"case": CURRENT["case"], "reason": "shutdown-not-bounded:still-running-after-20s"})
+    if CURRENT["pid"]:
+        try:
+            os.kill(CURRENT["pid"], signal.SIGKILL)
+        except ProcessLookupError:
+            pass
+    print("REALCHILD " + json.dumps({"runs": len(CURRENT["details"]) + 1, "details": CURRENT["details"], "violations": CURRENT["violations"]}))
+    sys.stdout.flush()
+    os._exit(0)
+
+
+async def run(child, mode, M, P, big=0):
     pid = {}
     orig = M.anyio.open_process
 
     async def spy(*a, **k):
         p = await orig(*a, **k)
         pid["p"] = p.pid
+        CURRENT["pid"] = p.pid
         return p
+
+    async def body(streams, secs):
+        if big:
+            # a request of `big` bytes is in flight towards a child that does not read: the writer task waits on the pipe
+            await streams[1].send({"jsonrpc": "2.0", "id": 1, "method": "tools/call", "params": {"blob": "x" * big}})
+        await anyio.sleep(secs)
 
     M.anyio.open_process = spy
     t0 = time.time()
     try:
         params = P.StdioParameters(command=sys.executable, args=["-c", child])
         if mode == "normal":
-            async with M.stdio_client(params):
-                await anyio.sleep(0.2)
+            async with M.stdio_client(params) as streams:
+                await body(streams, 0.2)
         elif mode == "exception":
             try:
-                async with M.stdio_client(params):
-                    await anyio.sleep(0.2)
+                async with M.stdio_client(params) as streams:
+                    await body(streams, 0.2)
                     raise KeyError("body")
             except KeyError:
                 pass
         else:
-            with anyio.move_on_after(0.2):
-                async with M.stdio_client(params):
-                    await anyio.sleep(30)
+            with anyio.move_on_after(0.3):
+                async with M.stdio_client(params) as streams:
+                    await body(streams, 30)
     finally:
         M.anyio.open_process = orig
     dt = time.time() - t0
@@ -72,11 +96,17 @@ async def main():
 
     M = sys.modules["chuk_mcp.transports.stdio.stdio_client"]
     P = sys.modules["chuk_mcp.transports.stdio.parameters"]
-    details, violations = [], []
-    for cname, child in (("well-behaved", CHILD_OK), ("ignores-SIGTERM", CHILD_IGN), ("exits-early", CHILD_EARLY)):
-        for mode in ("normal", "exception", "cancellation"):
-            dt, st = await run(child, mode, M, P)
+    details, violations = CURRENT["details"], CURRENT["violations"]
+    signal.signal(signal.SIGALRM, _watchdog)
+    cases = [(cname, child, mode, 0) for cname, child in (("well-behaved", CHILD_OK), ("ignores-SIGTERM", CHILD_IGN), ("exits-early", CHILD_EARLY)) for mode in ("normal", "exception", "cancellation")]
+    # a child that never reads, with a message in flight that is smaller / larger than the pipe can take
+    cases += [("never-reads+%dB-in-flight" % b, CHILD_NOREAD, mode, b) for b in (200, 5000, 1 << 20) for mode in ("normal", "cancellation")]
+    for cname, child, mode, big in cases:
             case = f"{cname}/{mode}"
+            CURRENT["case"] = case
+            signal.alarm(20)
+            dt, st = await run(child, mode, M, P, big)
+            signal.alarm(0)
             details.append({"case": case, "seconds": round(dt, 2), "child_state_after": st})
             if st is not None:
                 violations.append({"case": case, "reason": f"child-still-present-after-exit:state-{st}"})
